@@ -30,6 +30,9 @@ func bomb(kind, place string, pad int, now time.Time) (payload string, inflated 
 // bombIn: the same message in a raw DEFLATE stream (what the bindings specify), or wrapped as a zlib (RFC 1950) or
 // gzip (RFC 1952) container, which some stacks emit and lenient decoders accept
 func bombIn(container, kind, place string, pad int, now time.Time) (payload string, inflated int) {
+	if container == "multistream" {
+		return bombMulti(kind, place, pad, now)
+	}
 	var buf bytes.Buffer
 	var w io.WriteCloser
 	switch container {
@@ -54,6 +57,11 @@ func bombIn(container, kind, place string, pad int, now time.Time) (payload stri
 	root := "AuthnRequest"
 	if kind == "logout" {
 		root = "LogoutRequest"
+	}
+	if place == "pre-root-comment" {
+		write("<!--")
+		padding()
+		write("-->")
 	}
 	write(fmt.Sprintf(`<samlp:%s xmlns:samlp="%s" xmlns:saml="%s" ID="id-bomb" Version="2.0" IssueInstant="%s"`, root, nsProtocol, nsAssertion, now.UTC().Format("2006-01-02T15:04:05Z")))
 	if place == "attribute" {
@@ -87,6 +95,43 @@ func bombIn(container, kind, place string, pad int, now time.Time) (payload stri
 	return base64.StdEncoding.EncodeToString(buf.Bytes()), inflated
 }
 
+// bombMulti: the same message as several complete DEFLATE streams back to back (each ends with a final block), every one
+// of them inflating to at most 8 MiB - a decoder that restarts on the remaining input must bound the whole message,
+// not each stream
+func bombMulti(kind, place string, pad int, now time.Time) (string, int) {
+	one, _ := bombIn("raw", kind, place, 0, now) // the message itself
+	msg, _ := base64.StdEncoding.DecodeString(one)
+	plain, _ := inflateAll(msg)
+	var out bytes.Buffer
+	total := 0
+	emit := func(b []byte) {
+		w, _ := flate.NewWriter(&out, 6)
+		w.Write(b)
+		w.Close()
+		total += len(b)
+	}
+	cut := len(plain)
+	if place == "after-root" || place == "garbage" {
+		emit(plain)
+		cut = 0
+	} else {
+		// padding goes into a comment in front of the root, split over streams
+		emit([]byte("<!--"))
+	}
+	chunk := bytes.Repeat([]byte(" "), 8<<20)
+	for left := pad; left > 0; left -= len(chunk) {
+		if left < len(chunk) {
+			chunk = chunk[:left]
+		}
+		emit(chunk)
+	}
+	if cut > 0 {
+		emit([]byte("-->"))
+		emit(plain)
+	}
+	return base64.StdEncoding.EncodeToString(out.Bytes()), total
+}
+
 func runC14(c *Ctx) {
 	c.rep.Rule = "DEFLATE payloads inflating to 1 MiB .. N MiB (N = 64 quick, 1024 thorough) with the padding in a comment, in text, in an attribute value, after the root element or after malformed XML, on the SSO endpoint (query and form) and the logout endpoint (query and form); for each: TotalAlloc delta around one ServeHTTP call and the acceptance outcome. Non-trivial = inflated size above the cap; distinct = (endpoint, transport, placement, size)."
 	initKeys()
@@ -94,14 +139,14 @@ func runC14(c *Ctx) {
 	if c.thorough() {
 		sizes = append(sizes, 256, 1024)
 	}
-	places := []string{"comment", "text", "attribute", "after-root", "garbage"}
+	places := []string{"comment", "text", "attribute", "after-root", "garbage", "pre-root-comment"}
 	type ep struct{ name, path, kind, transport string }
 	eps := []ep{{"sso-query", "/SSO", "authn", "query"}, {"sso-form", "/SSO", "authn", "form"}, {"slo-form", "/SLO", "logout", "form"}, {"slo-query", "/SLO", "logout", "query"}}
 	now := time.Now()
 	stop := false
 	for _, mb := range sizes {
 		for _, place := range places {
-			if !c.thorough() && mb >= 64 && place != "comment" && place != "after-root" {
+			if !c.thorough() && mb >= 64 && place != "comment" && place != "after-root" && place != "attribute" && place != "pre-root-comment" {
 				continue
 			}
 			for _, container := range []string{"raw", "zlib", "gzip"} {
